@@ -897,6 +897,10 @@ class Engine(Interp):
             return None
         if a[0] in ('int', 'slen') and b[0] in ('int', 'slen'):
             r = self.compare(st, 'Eq', a, b)
+            if r[0] == 'boolc':
+                d = self.decide(st, r[1])       # (the length of the very same range, equal terms)
+                if d is not None:
+                    return TRUE if d else FALSE
             return r if r[0] in ('bool', 'boolc') else None
         if a[0] == 'adt' and b[0] == 'adt' and a[1] == b[1] == OPTION:
             if a[2] != b[2]:
